@@ -14,6 +14,7 @@
 #include "mxv.h"
 #include "wire.h"
 #include "san.h"
+#include "tk_flight.h"
 
 #define MAXCFG 96
 static wcfg_t cfgs[MAXCFG];
@@ -304,11 +305,235 @@ static void fork_edit(gctx_t *g, int kind, int off, int val)
     mx_fork_case(desc, run_case, g);
 }
 
+/* ------------------------------------------------------------------ part T: malicious TLS 1.3 peer (toolkit)
+ * The protected TLS 1.3 flights are opened with the sender's handshake traffic secret, ONE handshake message is edited at
+ * the byte level, Finished is recomputed over the edited transcript and the flight is re-sealed: the edits reach the parsers
+ * of EncryptedExtensions / CertificateRequest / Certificate / CertificateVerify / Finished behind the record protection,
+ * which ciphertext edits (rejected by the AEAD) never do. */
+enum { T_BYTE = 0, T_W2, T_W3, T_TRUNC_FIX, T_TRUNC_NOFIX, T_EXTEND, T_NONE, T_NK };
+static const char *tname[] = { "msg-byte", "msg-window16", "msg-window24", "msg-truncate-header-fixed", "msg-truncate-header-kept", "msg-extend", "msg-none" };
+typedef struct { a_ctx_t *g; int mi, kind, off, val; } tcase_t;
+
+static void t_run_case(void *ctx, mx_result_t *r)
+{
+    tcase_t *c = ctx;
+    a_ctx_t *g = c->g;
+    const a_cfg_t *ac = &acfgs[g->ci];
+    static unsigned char em[24100], rec[24200], th[64], vd[64], fin[4 + 64];
+    tk_msg_t out[16];
+    int i, el, v = g->victim, s;
+    buf_t tr;
+    long live;
+
+    r->nontrivial = c->kind != T_NONE;
+    /* edited copy of message mi */
+    el = g->m[c->mi].len;
+    memcpy(em, g->m[c->mi].p, (size_t) el);
+    switch (c->kind)
+    {
+    case T_BYTE: em[c->off] = (unsigned char) byte_val(c->val, em[c->off]); break;
+    case T_W2:
+    {
+        int n = (em[c->off] << 8) | em[c->off + 1], nv;
+        static const int fixed[4] = { 0x0000, 0x0001, 0x7fff, 0xffff };
+        nv = c->val < 4 ? fixed[c->val] : c->val == 4 ? (n - 1) & 0xffff : (n + 1) & 0xffff;
+        em[c->off] = (unsigned char) (nv >> 8); em[c->off + 1] = (unsigned char) nv;
+        break;
+    }
+    case T_W3:
+    {
+        static const int fixed[3] = { 0x000000, 0x00ffff, 0xffffff };
+        int nv = fixed[c->val];
+        em[c->off] = (unsigned char) (nv >> 16); em[c->off + 1] = (unsigned char) (nv >> 8); em[c->off + 2] = (unsigned char) nv;
+        break;
+    }
+    case T_TRUNC_FIX:
+        el = 4 + c->off;
+        em[1] = (unsigned char) (c->off >> 16); em[2] = (unsigned char) (c->off >> 8); em[3] = (unsigned char) c->off;
+        break;
+    case T_TRUNC_NOFIX:
+        el = 4 + c->off;
+        break;
+    case T_EXTEND:
+        memset(em + el, 0x41, (size_t) c->off);
+        el += c->off;
+        em[1] = (unsigned char) ((el - 4) >> 16); em[2] = (unsigned char) ((el - 4) >> 8); em[3] = (unsigned char) (el - 4);
+        break;
+    }
+    buf_init(&tr);
+    buf_add(&tr, g->tr.p, g->tr.len);
+    for (i = 0; i < g->nm; i++)
+    {
+        out[i] = g->m[i];
+        if (i == c->mi)
+        {
+            out[i].p = em;
+            out[i].len = el;
+        }
+        else if (g->m[i].type == 20 && g->m[i].len == 4 + g->hashlen && i > c->mi)
+        {
+            /* Finished after the edited message: recomputed over the edited transcript */
+            tk_transcript_hash(g->hashlen, &tr, th);
+            tk13_finished(&g->fk, th, vd);
+            memcpy(fin, g->m[i].p, 4);
+            memcpy(fin + 4, vd, (size_t) g->hashlen);
+            out[i].p = fin;
+        }
+        buf_add(&tr, out[i].p, (size_t) out[i].len);
+    }
+    for (i = 0; i < g->nfirst; i++)
+    {
+        world_feed(&g->w, v, g->first_units[i], g->first_len[i]);
+    }
+    g->fk.seq = 0;
+    for (i = 0; i < g->nm; i++)
+    {
+        int rl;
+        if (out[i].len <= 0 || out[i].len > 16000)
+        {
+            continue;
+        }
+        rl = tk13_seal(&g->fk, 22, out[i].p, out[i].len, rec);
+        if (g->w.s[v].err_rc < 0 || (g->w.s[v].ssl && g->w.s[v].ssl->err != SSL_ALERT_NONE))
+        {
+            break;
+        }
+        world_feed(&g->w, v, rec, rl);
+    }
+    world_pump(&g->w, 60);
+    for (s = 0; s < 2; s++)
+    {
+        ssl_t *ssl = g->w.s[s].ssl;
+        if (ssl && (ssl->insize > SSL_MAX_BUF_SIZE || ssl->outsize > SSL_MAX_BUF_SIZE))
+        {
+            r->violation = 1;
+            snprintf(r->key, sizeof(r->key), "buffer-exceeds-SSL_MAX_BUF_SIZE|%s", tname[c->kind]);
+            snprintf(r->what, sizeof(r->what), "side %d buffers grew to in %d / out %d bytes after %s", s, ssl->insize, ssl->outsize, tname[c->kind]);
+        }
+    }
+    if (g->w.corrupt && !r->violation)
+    {
+        r->violation = 1;
+        snprintf(r->key, sizeof(r->key), "readbuf-out-of-bounds|tls13-peer|%s", v ? "server" : "client");
+        snprintf(r->what, sizeof(r->what), "after a protected-message edit (%s msg %d type %d off %d val %d) matrixSslGetReadbuf returned a region outside the input buffer [%s]",
+            tname[c->kind], c->mi, g->m[c->mi].type, c->off, c->val, r->desc);
+    }
+    snprintf(r->outcome, sizeof(r->outcome), "peer13:%s:type%d:c%d%d:a%d", tname[c->kind], g->m[c->mi].type, world_is_complete(&g->w, 0), world_is_complete(&g->w, 1),
+        g->w.s[v].ssl ? g->w.s[v].ssl->err : -1);
+    r->transitions = g->w.actions;
+    r->trace_hash = world_trace_hash(&g->w);
+    world_free(&g->w);
+    buf_free(&g->tr);
+    buf_free(&tr);
+    env_track(0);
+    live = env_live();
+    if (live != 0 && !r->violation)
+    {
+        void *sites[2];
+        char site[128] = "?";
+        if (env_live_sites(sites, 2) > 0)
+        {
+            mx_addr_func(sites[0], site, sizeof(site));
+        }
+        env_live_dump();
+        r->violation = 1;
+        snprintf(r->key, sizeof(r->key), "leak-after-delete|tls13-peer|%s|alloc-in=%s", v ? "server" : "client", site);
+        snprintf(r->what, sizeof(r->what), "%s: %ld tracked allocations still live after teardown, first allocated in %s (malicious peer edit %s of message %d type %d off %d val %d fed to %s) [%s]",
+            ac->name, live, site, tname[c->kind], c->mi, g->m[c->mi].type, c->off, c->val, v ? "server" : "client", r->desc);
+    }
+}
+
+static int t_setup(a_ctx_t *g)
+{
+    env_live_reset();
+    env_track(1);
+    return a_setup_full(g);
+}
+
+static void t_fork(a_ctx_t *g, int mi, int kind, int off, int val)
+{
+    char desc[220];
+    tcase_t c = { g, mi, kind, off, val };
+    snprintf(desc, sizeof(desc), "T;c=%d;v=%d;m=%d;k=%d;o=%d;x=%d (%s to=%s message %d type %d %s)", g->ci, g->victim, mi, kind, off, val, acfgs[g->ci].name,
+        g->victim ? "server" : "client", mi, g->m[mi].type, tname[kind]);
+    mx_fork_case(desc, t_run_case, &c);
+}
+
+static void t_run_group(int aci, int victim, int mi)
+{
+    static a_ctx_t g;
+    int o, k, L, rc;
+    memset(&g, 0, sizeof(g));
+    g.ci = aci; g.victim = victim;
+    if ((rc = t_setup(&g)) != 0)
+    {
+        mx_result_t r;
+        memset(&r, 0, sizeof(r));
+        r.violation = 2;
+        snprintf(r.key, sizeof(r.key), "toolkit-setup-failed|%s|v=%d|rc=%d", acfgs[aci].name, victim, rc);
+        snprintf(r.what, sizeof(r.what), "toolkit could not open the honest flight of %s (victim %d, rc %d)", acfgs[aci].name, victim, rc);
+        snprintf(r.desc, sizeof(r.desc), "T;c=%d;v=%d", aci, victim);
+        mx_record(&r);
+        return;
+    }
+    if (mi >= g.nm)
+    {
+        world_free(&g.w);
+        buf_free(&g.tr);
+        env_track(0);
+        return;
+    }
+    L = g.m[mi].len;
+    if (mi == 0)
+    {
+        t_fork(&g, 0, T_NONE, 0, 0);
+    }
+    for (o = 0; o < L && !mx_deadline_hit(); o++)
+    {
+        /* quick: every offset of short messages, head / tail / 16-byte grid of long ones (certificates), and a reduced value set */
+        int dense = thorough || L <= 260 || o < 128 || o >= L - 48 || (o % 16) == 0;
+        static const int qb[4] = { 0, 4, 5, 6 }, qw[3] = { 0, 3, 5 };   /* byte: 00 ff x^01 x^80; window16: 0000 ffff n+1 */
+        if (!dense)
+        {
+            continue;
+        }
+        if (thorough)
+        {
+            for (k = 0; k < 8; k++) t_fork(&g, mi, T_BYTE, o, k);
+            if (o + 1 < L) for (k = 0; k < 6; k++) t_fork(&g, mi, T_W2, o, k);
+            if (o + 2 < L) for (k = 0; k < 3; k++) t_fork(&g, mi, T_W3, o, k);
+        }
+        else
+        {
+            for (k = 0; k < 4; k++) t_fork(&g, mi, T_BYTE, o, qb[k]);
+            if (o + 1 < L) for (k = 0; k < 3; k++) t_fork(&g, mi, T_W2, o, qw[k]);
+            if (o + 2 < L) t_fork(&g, mi, T_W3, o, 2);
+        }
+        if (o <= L - 4)
+        {
+            t_fork(&g, mi, T_TRUNC_FIX, o, 0);
+            t_fork(&g, mi, T_TRUNC_NOFIX, o, 0);
+        }
+    }
+    t_fork(&g, mi, T_EXTEND, 1, 0);
+    t_fork(&g, mi, T_EXTEND, 2, 0);
+    t_fork(&g, mi, T_EXTEND, 16, 0);
+    world_free(&g.w);
+    buf_free(&g.tr);
+    env_track(0);
+}
+
 static void run_group(long gi, void *unused)
 {
     static gctx_t g;
     int v, k, o, nv = thorough ? 256 : 8, hdr;
     (void) unused;
+    if (groups[gi].ci >= 1000)
+    {
+        int x = groups[gi].ci - 1000;
+        t_run_group(x / 2, x % 2, groups[gi].p);
+        return;
+    }
     for (v = 0; v < 2; v++)
     {
         memset(&g, 0, sizeof(g));
@@ -467,8 +692,9 @@ int main(int argc, char **argv)
     cfg.rule = "case = (configuration, handshake prefix or connected state, receiving role, one structure-agnostic edit of the next honest unit): every truncation; every byte x {00,01,7f,80,ff,x^01,x^80,x+1}; "
                "every 2-byte window x {0000,0001,7fff,ffff,n-1,n+1}; every 3-byte window x {000000,00ffff,ffffff}; every split of a plaintext handshake record into two; coalescing with the follower; "
                "raw strings of length <= 2 and 5-byte headers over {00,01,16,17,7f,ff}^5 in the initial and the connected state (quick: PSK configurations, header alphabet on a stride of 5, 2-byte strings on a stride of 251; long units densely at head and tail and on a 16-byte grid); "
-               "all distinct; non-trivial = edit applied to a live session";
-    cfg.assumptions[0] = "this is the complete single-edit neighbourhood of every honest flight in every reachable handshake state, not all byte strings; protected phases are edited on ciphertext only (MAC/AEAD rejects before the inner parsers)";
+               "all distinct; non-trivial = edit applied to a live session; part T (malicious TLS 1.3 peer): the protected flight towards the victim is opened with the sender's handshake secret, ONE handshake message "
+               "(EncryptedExtensions, CertificateRequest, Certificate, CertificateVerify, Finished) gets a byte / 16-bit / 24-bit window edit, a truncation with or without header fix-up or an extension, Finished is recomputed and the flight re-sealed";
+    cfg.assumptions[0] = "this is the complete single-edit neighbourhood of every honest flight in every reachable handshake state, not all byte strings; (D)TLS <= 1.2 protected phases are edited on ciphertext only (the MAC rejects before the inner parsers); TLS 1.3 protected handshake messages are edited in plaintext by part T";
     cfg.assumptions[1] = "oracle: no ASan/UBSan report, signal or 20 s hang; insize/outsize <= SSL_MAX_BUF_SIZE; after deleting sessions and keys the tracked allocation count is zero";
     replay = mx_parse_args(argc, argv, &cfg);
     thorough = !strcmp(cfg.tier, "thorough");
@@ -498,6 +724,29 @@ int main(int argc, char **argv)
         static gctx_t g;
         mx_result_t r;
         int ci, pp, v, k, o, x;
+        if (replay[0] == 'T')
+        {
+            static a_ctx_t tg;
+            tcase_t tc;
+            int aci, mi2;
+            if (sscanf(replay, "T;c=%d;v=%d;m=%d;k=%d;o=%d;x=%d", &aci, &v, &mi2, &k, &o, &x) != 6 || aci >= NACFG)
+            {
+                return 2;
+            }
+            memset(&tg, 0, sizeof(tg));
+            tg.ci = aci; tg.victim = v;
+            if (t_setup(&tg) != 0 || mi2 >= tg.nm)
+            {
+                fprintf(stderr, "cannot set up the flight\n");
+                return 2;
+            }
+            tc.g = &tg; tc.mi = mi2; tc.kind = k; tc.off = o; tc.val = x;
+            memset(&r, 0, sizeof(r));
+            snprintf(r.desc, sizeof(r.desc), "%s", replay);
+            t_run_case(&tc, &r);
+            mx_replay_print(&r);
+            return 0;
+        }
         if (sscanf(replay, "cfg=%d;p=%d;v=%d;k=%d;o=%d;x=%d", &ci, &pp, &v, &k, &o, &x) != 6 || ci >= ncfg)
         {
             fprintf(stderr, "bad replay descriptor\n");
@@ -520,7 +769,7 @@ int main(int argc, char **argv)
         return 0;
     }
     mx_init(&cfg);
-    for (i = 0; i < ncfg; i++)
+    for (i = 0; i < ncfg && !getenv("MXV_C08_ONLY_PEER13"); i++)
     {
         nsteps[i] = world_count_steps(&cfgs[i]);
         if (nsteps[i] < 0)
@@ -533,6 +782,26 @@ int main(int argc, char **argv)
             groups[ngroups].ci = i;
             groups[ngroups].p = p;
             ngroups++;
+        }
+    }
+    /* part T: malicious TLS 1.3 peer, one group per (mode, victim, message index) */
+    {
+        int aci, vv, mi2;
+        for (aci = 0; aci < NACFG; aci++)
+        {
+            if (!thorough && !(aci == 0 || aci == 1 || aci == 2))
+            {
+                continue; /* quick: RSA, PSK, ECDSA + client authentication */
+            }
+            for (vv = 0; vv < 2; vv++)
+            {
+                for (mi2 = 0; mi2 < 6; mi2++)
+                {
+                    groups[ngroups].ci = 1000 + aci * 2 + vv;
+                    groups[ngroups].p = mi2;
+                    ngroups++;
+                }
+            }
         }
     }
     mx_parallel(ngroups, run_group, NULL);
